@@ -1191,7 +1191,7 @@ func (d *DotGit) checkReferenceAndTruncate(f billy.File, old *plumbing.Reference
 		return err
 	}
 
-	if ref.Hash() != old.Hash() {
+	if !sameReferenceValue(ref, old) {
 		return storage.ErrReferenceHasChanged
 	}
 	_, err = f.Seek(0, io.SeekStart)
@@ -1199,6 +1199,16 @@ func (d *DotGit) checkReferenceAndTruncate(f billy.File, old *plumbing.Reference
 		return err
 	}
 	return f.Truncate(0)
+}
+
+// sameReferenceValue reports whether the stored reference holds the value the
+// caller expects. Symbolic references all have the zero hash, so they are
+// compared by target: an expected "ref: X" does not match a stored "ref: Y".
+func sameReferenceValue(stored, expected *plumbing.Reference) bool {
+	if expected.Type() == plumbing.SymbolicReference {
+		return stored.Type() == plumbing.SymbolicReference && stored.Target() == expected.Target()
+	}
+	return stored.Hash() == expected.Hash()
 }
 
 // SetRef stores a reference, optionally checking that old matches the current value.
